@@ -66,6 +66,23 @@ def _ver_from_list(l: List[int]) -> Ver:
     return Ver(*l)
 def _ver_to_str(v: Ver) -> str:
     return f"{v.a}.{v.b}"
+class Amount:
+    """A type converted from / to a union of primitives, with a schema annotation of its own: std kind "amount"."""
+    def __init__(self, v):
+        self.v = v
+    def __eq__(self, other):
+        return type(other) is Amount and other.v == self.v and type(other.v) is type(self.v)
+    def __hash__(self):
+        return hash(self.v)
+    def __repr__(self):
+        return f"Amount({self.v!r})"
+def _amount_from(v: Union[int, str]) -> Amount:
+    return Amount(v)
+def _amount_to(a: Amount) -> Union[int, str]:
+    return a.v
+deserializer(_amount_from)
+serializer(_amount_to)
+schema(description="amount")(Amount)
 @dataclass
 class VerObj:
     a: int
@@ -161,7 +178,7 @@ def texpr(t: Dict[str, Any], prog: Dict[str, Any]) -> str:
     if k == "std":
         return {"uuid": "uuid.UUID", "date": "datetime.date", "datetime": "datetime.datetime",
                 "time": "datetime.time", "decimal": "decimal.Decimal", "bytes": "bytes",
-                "path": "pathlib.Path", "ipv4": "ipaddress.IPv4Address", "ver": "Ver"}[t["t"]]
+                "path": "pathlib.Path", "ipv4": "ipaddress.IPv4Address", "ver": "Ver", "amount": "Amount"}[t["t"]]
     raise ValueError(f"unknown type kind {k}")
 
 
@@ -202,7 +219,7 @@ def vexpr(c: Any, prog: Dict[str, Any]) -> str:
                 "datetime": f"datetime.datetime.fromisoformat({img!r})", "time": f"datetime.time.fromisoformat({img!r})",
                 "decimal": f"decimal.Decimal({str(img)!r})", "bytes": f"__import__('base64').b64decode({img!r})",
                 "path": f"pathlib.Path({img!r})", "ipv4": f"ipaddress.IPv4Address({img!r})",
-                "ver": f"Ver({', '.join(str(img).split('.'))})"}[c[1]]
+                "ver": f"Ver({', '.join(str(img).split('.'))})", "amount": f"Amount({img!r})"}[c[1]]
     if tag == "nt":  # NewType value: same runtime class as the base
         return vexpr(c[1], prog)
     if tag == "obj":
